@@ -44,6 +44,9 @@ type c42Conn struct {
 	OpenAtMs int       `json:"open_at_ms"` // relative to its phase start
 	Calls    []c42Call `json:"calls"`
 	LingerMs int       `json:"linger_ms,omitempty"` // stays open this long after its last call
+	// Abrupt makes the connection end rudely after its calls (which may be none): "half" writes the first half of
+	// a request's bytes and closes; "noread" writes a whole request and closes without reading the response.
+	Abrupt string `json:"abrupt,omitempty"`
 }
 
 type c42Case struct {
@@ -53,7 +56,10 @@ type c42Case struct {
 	// HookRefusals scripts the server's serve-start hook: its first HookRefusals invocations fail (a transient
 	// start-up failure: the binding is not committed and the next connection re-fires the hook). One sacrificial
 	// connection per refusal is dialled, sequentially, before the first wave; the server closes each unserved.
-	HookRefusals int       `json:"hook_refusals,omitempty"`
+	HookRefusals int `json:"hook_refusals,omitempty"`
+	// SilentHolder: the holder dials and sends nothing at all until the idle period is over (then one call, which
+	// proves it had been accepted); first-wave connections are dialled only after the holder's connect returned.
+	SilentHolder bool      `json:"silent_holder,omitempty"`
 	Wave1        []c42Conn `json:"wave1"`        // overlap with the holder's calls
 	ProbesPct    []int     `json:"probes_pct"`   // probe connections dialled this % of the idle time-out after wave 1 closed
 	Wave2GapMs   int       `json:"wave2_gap_ms"` // second wave starts this long after the holder closed (well under the time-out)
@@ -85,7 +91,18 @@ func genC42(t *rapid.T) c42Case {
 		n1 = 1 // refusal + overlap + partial disconnect needs a first-wave connection
 	}
 	for i := 0; i < n1; i++ {
-		c.Wave1 = append(c.Wave1, genC42Conn(t, 60, 4))
+		w := genC42Conn(t, 60, 4)
+		if rapid.IntRange(0, 3).Draw(t, "abrupt") == 0 {
+			w.Abrupt = []string{"half", "noread"}[rapid.IntRange(0, 1).Draw(t, "abrupt_kind")]
+			if rapid.Bool().Draw(t, "abrupt_nocalls") {
+				w.Calls = nil // never served at all: only the broken request
+			}
+		}
+		c.Wave1 = append(c.Wave1, w)
+	}
+	if rapid.IntRange(0, 3).Draw(t, "silent_holder") == 0 {
+		c.SilentHolder = true
+		c.Holder.Calls = nil
 	}
 	np := rapid.IntRange(1, 2).Draw(t, "nprobes")
 	for i := 0; i < np; i++ {
@@ -117,6 +134,8 @@ type c42ConnRec struct {
 	Calls      []c42CallRec
 	CloseBegin time.Time
 	CloseEnd   time.Time
+	Abrupt     string // the rude ending performed ("" none)
+	Silent     bool   // sent nothing before its hold
 }
 
 func (r *c42ConnRec) firstResp() (time.Time, bool) {
@@ -146,6 +165,9 @@ type c42Listener struct {
 	mu    sync.Mutex
 	conns []*c42ConnRec
 	modes []string // socket modes observed while connections were open
+
+	holderDialed chan struct{} // closed once the holder's connect has returned
+	dialedOnce   sync.Once
 }
 
 func c42Tag(conn string, i int, pad int) string {
@@ -238,10 +260,14 @@ func (l *c42Listener) runConn(name string, spec c42Conn, phaseStart time.Time, h
 	rec.DialStart = time.Now()
 	conn, err := net.DialTimeout(l.network, l.addr, 5*time.Second)
 	rec.DialEnd = time.Now()
+	if strings.HasSuffix(name, "-holder") {
+		l.dialedOnce.Do(func() { close(l.holderDialed) })
+	}
 	if err != nil {
 		rec.DialErr = err.Error()
 		return rec
 	}
+	rec.Silent = finalCall && len(spec.Calls) == 0
 	calls := append([]c42Call{}, spec.Calls...)
 	doCall := func(i int, call c42Call) bool {
 		time.Sleep(time.Duration(call.GapMs) * time.Millisecond)
@@ -293,6 +319,16 @@ func (l *c42Listener) runConn(name string, spec c42Conn, phaseStart time.Time, h
 		if finalCall {
 			doCall(len(calls), c42Call{})
 		}
+		if spec.Abrupt != "" {
+			req := lib.BuildRequest("u_str", lib.ScriptBatch(lib.UnaryScript{Outcome: "value", Value: "abrupt:" + name}.JSON()), lib.ReqOpts{RequestID: "rid:abrupt:" + name})
+			if spec.Abrupt == "half" {
+				req = req[:len(req)/2]
+			}
+			_ = conn.SetDeadline(time.Now().Add(c42IOTimeout))
+			if _, err := conn.Write(req); err == nil {
+				rec.Abrupt = spec.Abrupt
+			}
+		}
 	}
 	rec.CloseBegin = time.Now()
 	_ = conn.Close()
@@ -301,7 +337,7 @@ func (l *c42Listener) runConn(name string, spec c42Conn, phaseStart time.Time, h
 }
 
 func startListener(transport string, idle time.Duration, hookRefusals int) (*c42Listener, error) {
-	l := &c42Listener{transport: transport, idle: idle, retCh: make(chan struct{})}
+	l := &c42Listener{transport: transport, idle: idle, retCh: make(chan struct{}), holderDialed: make(chan struct{})}
 	srv := vgirpc.NewServer()
 	srv.SetServerID("c42-" + transport)
 	lib.RegisterScripted(srv)
@@ -396,7 +432,17 @@ func runC42One(c c42Case, transport string, out *lib.Outcome) {
 		go func(i int, spec c42Conn) {
 			defer all.Done()
 			defer wave1.Done()
-			l.runConn(fmt.Sprintf("%s-w1-%d", transport, i), spec, start, nil, false)
+			phase := start
+			if c.SilentHolder {
+				// dial only after the silent holder's connect has returned: the accept queue is FIFO, so a
+				// first-wave connection that gets served proves the holder had been accepted before it
+				select {
+				case <-l.holderDialed:
+				case <-time.After(10 * time.Second):
+				}
+				phase = time.Now()
+			}
+			l.runConn(fmt.Sprintf("%s-w1-%d", transport, i), spec, phase, nil, false)
 		}(i, spec)
 	}
 	var quietStart, quietEnd time.Time
@@ -534,6 +580,15 @@ func judgeC42(c c42Case, tr string, l *c42Listener, conns []*c42ConnRec, modes [
 		if r.DialStart.After(lo) {
 			lo = r.DialStart
 		}
+		if r.Silent {
+			// a connection dialled after the silent one's connect returned and then served was accepted after it
+			// (FIFO accept queue): from that connection's first response on the silent one was verifiably open too
+			for _, w := range conns {
+				if fw, wok := w.firstResp(); wok && w != r && w.DialStart.After(r.DialEnd) && fw.Before(fr) {
+					fr = fw
+				}
+			}
+		}
 		cover = append(cover, c42Span{fr, r.CloseBegin.Add(idle)})
 		// a connection that broke after having been served
 		for i, cr := range r.Calls {
@@ -654,7 +709,7 @@ func judgeC42(c c42Case, tr string, l *c42Listener, conns []*c42ConnRec, modes [
 		}
 	}
 	fr, hok := holder.firstResp()
-	heldIdle := hok && !quietStart.IsZero() && quietEnd.Sub(quietStart) > 2*idle && fr.Before(quietStart) && len(holder.Calls) == len(c.Holder.Calls)+1 && holder.Calls[len(holder.Calls)-1].Err == ""
+	heldIdle := hok && !quietStart.IsZero() && quietEnd.Sub(quietStart) > 2*idle && (holder.Silent || fr.Before(quietStart)) && len(holder.Calls) == len(c.Holder.Calls)+1 && holder.Calls[len(holder.Calls)-1].Err == ""
 	if overlap {
 		out.Label("overlap:" + tr)
 	}
@@ -676,6 +731,22 @@ func judgeC42(c c42Case, tr string, l *c42Listener, conns []*c42ConnRec, modes [
 				partial = true
 			}
 		}
+	}
+	abrupt := ""
+	for _, r := range conns {
+		if r.Abrupt != "" && !r.CloseBegin.After(quietStart) {
+			abrupt = r.Abrupt
+			out.Label("abrupt:" + r.Abrupt + ":" + tr)
+			if _, everServed := r.firstResp(); !everServed {
+				out.Label("abrupt-never-served:" + tr)
+			}
+		}
+	}
+	if abrupt != "" && heldIdle && probed && returned {
+		out.Label("abrupt-then-held-idle", "abrupt-then-held-idle:"+tr)
+	}
+	if holder.Silent && heldIdle && probed {
+		out.Label("silent-held-idle", "silent-held-idle:"+tr)
 	}
 	if c.HookRefusals > 0 && refused == c.HookRefusals {
 		out.Label("hook-refused:" + tr)
@@ -709,13 +780,13 @@ func runC42(c c42Case) (out lib.Outcome) {
 
 var propC42 = lib.Prop[c42Case]{
 	ID: "C42",
-	Rule: "connection schedules against real RunUnix / RunTcp listeners (idle time-out 100-400 ms): the serve-start hook failing its first 0-2 invocations (one sacrificial connection each, closed unserved, before the first wave), a holder connection plus 0-5 overlapping first-wave connections with 1-4 scripted u_str calls each (values, errors and logs tagged with the connection), " +
-		"the holder then idle for more than 2x the time-out while 1-2 probe connections are dialled and served, a second wave 0..timeout/4 after the holder closes, then everything closed. " +
+	Rule: "connection schedules against real RunUnix / RunTcp listeners (idle time-out 100-400 ms): the serve-start hook failing its first 0-2 invocations (one sacrificial connection each, closed unserved, before the first wave), a holder connection plus 0-5 overlapping first-wave connections with 1-4 scripted u_str calls each (values, errors and logs tagged with the connection), some of which end abruptly (half-written request, or a request whose response is never read; possibly as their only traffic), " +
+		"the holder (in a quarter of the cases completely silent from connect on) then idle for more than 2x the time-out while 1-2 probe connections are dialled and served, a second wave 0..timeout/4 after the holder closes, then everything closed. " +
 		"Oracle: each connection reads exactly its own modelled responses; the interval in which the listener can have stopped accepting (latest served dial .. earliest refused dial / return) must contain an instant with no verifiably open connection in the preceding time-out; " +
 		"no call is served after the function returned; the function returns after the last close (15 s bound); Unix socket owner-only (no group/other permission bits) while serving, path gone after return. Non-trivial: overlapping connections and a connection held idle > 2x the time-out.",
 	Gen:          genC42,
 	Run:          runC42,
-	Essential:    []string{"overlap:unix", "overlap:tcp", "held-idle-2x:unix", "held-idle-2x:tcp", "probe-served:unix", "probe-served:tcp", "hook-refused-then-overlap-idle-wait"},
+	Essential:    []string{"overlap:unix", "overlap:tcp", "held-idle-2x:unix", "held-idle-2x:tcp", "probe-served:unix", "probe-served:tcp", "hook-refused-then-overlap-idle-wait", "abrupt-then-held-idle", "silent-held-idle"},
 	EssentialMin: 10,
 	Assumptions: []string{
 		"the 60 s start-up grace is not waited for: every schedule opens its first connection immediately",
